@@ -27,6 +27,7 @@ type Result struct {
 	NFiles   int        `json:"nfiles,omitempty"`
 
 	// reader observations
+	SeqPos     []int       `json:"seq_pos,omitempty"` // reader position after each call of a Seq task
 	Delivered  int         `json:"delivered"`
 	MaxWantEnd int         `json:"max_want_end"`
 	ReadCalls  int         `json:"read_calls"`
@@ -249,6 +250,43 @@ func runTask(t *Task, media map[string][]byte, sched Yielder, prior map[int]*Res
 	}
 	if hasOpt(t, "unknownMessages") {
 		opts = append(opts, optionValue(t, "unknownMessages", fit.WithUnknownMessages))
+	}
+	// position of the reader as the caller sees it (bytes handed out so far)
+	srcPos := func() int {
+		if nat != nil {
+			left := nat.Len()
+			if natBuf != nil {
+				left += natBuf.Buffered()
+			}
+			return int(nat.Size()) - left
+		}
+		if rd != nil {
+			return rd.pos
+		}
+		return 0
+	}
+	if t.Seq > 1 && (t.Call == "Decode" || t.Call == "CheckIntegrity") {
+		// the same reader handed to several calls in a row: each call takes one
+		// file of a concatenation and leaves the reader at its end
+		for i := 0; i < t.Seq; i++ {
+			var err error
+			if t.Call == "Decode" {
+				var f *fit.File
+				f, err = fit.Decode(src, opts...)
+				res.files = append(res.files, f)
+				res.Dumps = append(res.Dumps, dumpFile(f))
+			} else {
+				err = fit.CheckIntegrity(src, false)
+			}
+			setErr(err)
+			res.SeqPos = append(res.SeqPos, srcPos())
+			if err != nil {
+				break
+			}
+		}
+		res.NFiles = len(res.SeqPos)
+		finish()
+		return res
 	}
 	switch t.Call {
 	case "Decode":
